@@ -6,6 +6,7 @@ than 20 s of CPU on an input of a few KB, and never with every thread parked for
 wait (deadlock monitor of factory.watched_run). rustc catches a proc macro's panic and goes on to
 the crate's next derive in the same process, so the same oracle is applied to a worker that runs a
 failing input and then further inputs (`after-failure` class, driver mode `serve`)."""
+import json
 import os
 import shutil
 from concurrent.futures import ThreadPoolExecutor
@@ -30,12 +31,12 @@ RULE = ("adversarial (schema, query) texts, one isolated worker process each: fr
         "(output piped through rustfmt) on operations of 200 - 4,000 fields, command and formatter watched as one process tree; long acyclic chains "
         "(input types I0 -> I1 -> ... up to 3,000 / 6,000, fragment spread chains up to 1,000 / 2,500 with fields, as pure aliases, and carrying __typename for an interface) - flat "
         "texts that become deep walks inside the generator; exit judged, CPU time not (hazard corpus: the 60,000-type chain of K10); syntax errors that have to quote 200-900 bytes of non-ASCII text (2-, 3-, 4-byte scripts, "
-        "every alignment) in query files, SDL and JSON schema files and query strings. Non-trivial = every input except the "
+        "every alignment) in query files, SDL and JSON schema files and query strings; 8 - 28 mutually referring filter inputs (dense input graphs); introspection JSON with ill-formed type references (NON_NULL inside NON_NULL, wrappers without ofType, unknown kinds). Non-trivial = every input except the "
         "unmodified controls; distinct by (schema text, query text)")
 
 CPU_LIMIT_S = 20.0
 FLOOR = {"class:spread-cycle": 60, "class:nesting": 20, "class:input-cycle": 15, "class:degenerate": 15, "class:schema-variant": 25,
-         "class:mutated-query": 300, "class:mutated-schema": 300, "exit:ok": 5, "exit:err": 100, "class:after-failure": 25, "after-failure-calls": 100, "class:abstract-cycle": 90, "class:cli-large-module": 6, "class:long-chain": 9, "class:nonascii-error": 64}
+         "class:mutated-query": 300, "class:mutated-schema": 300, "exit:ok": 5, "exit:err": 100, "class:after-failure": 25, "after-failure-calls": 100, "class:abstract-cycle": 90, "class:cli-large-module": 6, "class:long-chain": 9, "class:nonascii-error": 64, "class:dense-input-graph": 4, "class:json-typeref-degenerate": 30}
 
 
 def main(run):
@@ -160,6 +161,37 @@ def main(run):
             inputs.append(("nonascii-error", "json schema: broken after a long key, %s, pad %d" % (sname, pad), bj, "query Q { a }\n"))
             inputs.append(("nonascii-error", "query text: string where a field is expected, %s, pad %d" % (sname, pad), cyc, 'query Q { "%s" }\n' % text))
             ni += 1
+
+    # densely connected input types (filter inputs in the style of Prisma / Hasura: every `ModelWhere` mentions every other one
+    # through nullable non-list members), entered through types that are not on a cycle themselves: the walks must stay
+    # polynomial (a per-path visited set makes them factorial)
+    for n in (8, 12, 16, run.size(20, 28)):
+        stext = "".join("input Model%dWhere { %s AND: [Model%dWhere!] eq: Int }\n" % (i, " ".join("m%d: Model%dWhere" % (j, j) for j in range(n) if j != i), i) for i in range(n))
+        stext += "input Filter { where: Model0Where other: Model1Where }\ninput SearchArgs { filter: Filter first: Int }\ntype Query { search(args: SearchArgs): Int }\n"
+        p = os.path.join(work, "dense%d.graphql" % n)
+        open(p, "w").write(stext)
+        inputs.append(("dense-input-graph", "%d mutually referring filter inputs" % n, p, "query Q($args: SearchArgs) { search(args: $args) }\n"))
+    # introspection JSON whose type references are not what a server produces (NON_NULL directly inside NON_NULL, wrappers
+    # without ofType, unknown kinds, a name on a wrapper): loading such a schema must end, selected or not
+    def jschema(tref, select=True):
+        return json.dumps({"data": {"__schema": {"queryType": {"name": "Query"}, "mutationType": None, "subscriptionType": None, "directives": [], "types": [
+            {"kind": "OBJECT", "name": "Query", "fields": [{"name": "odd", "args": [], "type": tref, "isDeprecated": False, "deprecationReason": None},
+                                                            {"name": "fine", "args": [], "type": {"kind": "SCALAR", "name": "Int", "ofType": None}, "isDeprecated": False, "deprecationReason": None}],
+             "inputFields": None, "interfaces": [], "enumValues": None, "possibleTypes": None},
+            {"kind": "INPUT_OBJECT", "name": "In", "fields": None, "inputFields": [{"name": "odd", "type": tref, "defaultValue": None}], "interfaces": None, "enumValues": None, "possibleTypes": None}]}}})
+    INT = {"kind": "SCALAR", "name": "Int", "ofType": None}
+    NNt = lambda t: {"kind": "NON_NULL", "name": None, "ofType": t}
+    Lt = lambda t: {"kind": "LIST", "name": None, "ofType": t}
+    odd_refs = [("NON_NULL of NON_NULL", NNt(NNt(INT))), ("NON_NULL of NON_NULL of LIST", NNt(NNt(Lt(INT)))), ("LIST of NON_NULL of NON_NULL", Lt(NNt(NNt(INT)))), ("triple NON_NULL", NNt(NNt(NNt(INT)))),
+                ("NON_NULL without ofType", {"kind": "NON_NULL", "name": None, "ofType": None}), ("LIST without ofType", {"kind": "LIST", "name": None, "ofType": None}),
+                ("unknown kind", {"kind": "TUPLE", "name": None, "ofType": INT}), ("wrapper with a name", {"kind": "LIST", "name": "Int", "ofType": INT}),
+                ("named type that does not exist", {"kind": "OBJECT", "name": "Nope", "ofType": None}), ("scalar with ofType", {"kind": "SCALAR", "name": "Int", "ofType": INT})]
+    for oi, (label, tref) in enumerate(odd_refs):
+        p = os.path.join(work, "oddref%d.json" % oi)
+        open(p, "w").write(jschema(tref))
+        inputs.append(("json-typeref-degenerate", label + ", field selected", p, "query Q { odd }\n"))
+        inputs.append(("json-typeref-degenerate", label + ", field not selected", p, "query Q { fine }\n"))
+        inputs.append(("json-typeref-degenerate", label + ", as input field", p, "query Q($i: In) { fine }\n"))
 
     def one(args):
         cls, label, sp, q = args
